@@ -198,10 +198,13 @@ func cmdCheck(args []string) int {
 	crashes := make([]string, n)
 	harnessErr := make([]string, n)
 	var wg sync.WaitGroup
+	sem := make(chan struct{}, 16)
 	for i := 0; i < n; i++ {
 		wg.Add(1)
 		go func(i int) {
 			defer wg.Done()
+			sem <- struct{}{}
+			defer func() { <-sem }()
 			out := filepath.Join(work, fmt.Sprintf("res-%d.json", i))
 			a := []string{"worker", id, "--tier", *tier, "--shard", strconv.Itoa(i), "--nshards", strconv.Itoa(n), "--out", out}
 			if budget > 0 {
